@@ -18,7 +18,7 @@ func init() {
 	Register(&Prop{
 		ID:    "C06",
 		Level: "exploration",
-		Rule: "one run = a seeded expression tree (size <= 14) over 1-5 source promises and leaf creators (Successful/Failed/FromTry/FromOption/Apply/Apply2/Func*/Unit* with " +
+		Rule: "one run = a seeded expression tree (size <= 14, plus flat LiftA5-9/LiftM5-9 and Chain4-9/Applicative4-9 nodes) over 1-5 source promises and leaf creators (Successful/Failed/FromTry/FromOption/Apply/Apply2/Func*/Unit* with " +
 			"succeeding, failing and panicking bodies), built by a builder task with the real future API (sub-expressions of FlatMap-like nodes are built inside callbacks, " +
 			"i.e. after their input completed) while completer tasks complete the sources in seeded phases (some before the build, some never) and observer tasks attach " +
 			"OnComplete at different times; per-node executors from {default goroutine, inline, spawn, fifo worker, lifo worker}; every atomic step is a scheduling point. " +
@@ -64,6 +64,13 @@ func f1(c, v int) int          { return v*3 + c }
 func f2(c, a, b int) int       { return a*5 + b*7 + c }
 func f3(c, a, b, d int) int    { return a*5 + b*7 + d*11 + c }
 func f4(c, a, b, d, e int) int { return a*5 + b*7 + d*11 + e*13 + c }
+func fv(c int, vs ...int) int {
+	h := c
+	for i, v := range vs {
+		h = (h*37 + v*(i+3)) % 1000003
+	}
+	return h
+}
 func hashSeq(vs []int) int {
 	h := 17
 	for _, v := range vs {
@@ -90,6 +97,8 @@ const (
 	opSeq
 	opBuilder2
 	opBuilder3
+	opBuilderN // Chain4..9 / Applicative4..9
+	opLiftN    // LiftA5..9 / LiftM5..9
 	nOps
 )
 
@@ -262,11 +271,21 @@ func (c *c06) gen(depth int, budget *int) *fx {
 		for i := 0; i < nk; i++ {
 			n.kids = append(n.kids, kid())
 		}
-	case opBuilder2, opBuilder3:
+	case opLiftN:
+		n.k = r.Choose(2, "liftMk")
+		n.tag = fmt.Sprintf("ln%d", n.id)
+		nk := r.Range(5, 9, "liftN")
+		for i := 0; i < nk; i++ {
+			n.kids = append(n.kids, c.gen(4, budget)) // operands are leaves / sources
+		}
+	case opBuilder2, opBuilder3, opBuilderN:
 		n.chain = r.Choose(2, "chain") == 1
 		na := 2
 		if n.op == opBuilder3 {
 			na = 3
+		}
+		if n.op == opBuilderN {
+			na = r.Range(4, 9, "builderN")
 		}
 		for i := 0; i < na; i++ {
 			a := &argSpec{c: 1 + r.Choose(9, "argc")}
@@ -277,7 +296,11 @@ func (c *c06) gen(depth int, budget *int) *fx {
 			}
 			switch a.kind {
 			case akApFuture, akApFutureFunc, akFlatMap, akHListFlatMap:
-				a.child = kid()
+				if n.op == opBuilderN {
+					a.child = c.gen(4, budget)
+				} else {
+					a.child = kid()
+				}
 			case akApTry, akApOption, akApTryFunc, akApOptionFunc:
 				if r.Choose(3, "argfail") == 2 {
 					a.tag = fmt.Sprintf("arg%d_%d", n.id, i)
@@ -316,7 +339,7 @@ func (n *fx) String() string {
 	return sb.String()
 }
 
-var opNames = [...]string{"src", "leaf", "map", "flatMap", "transform", "recover", "or", "failed", "method", "map2", "map3", "map4", "seq", "builder2", "builder3"}
+var opNames = [...]string{"src", "leaf", "map", "flatMap", "transform", "recover", "or", "failed", "method", "map2", "map3", "map4", "seq", "builder2", "builder3", "builderN", "liftN"}
 
 func (n *fx) write(sb *strings.Builder) {
 	switch n.op {
@@ -326,7 +349,7 @@ func (n *fx) write(sb *strings.Builder) {
 	case opLeaf:
 		fmt.Fprintf(sb, "leaf.%d(%d)", n.k, n.c)
 		return
-	case opBuilder2, opBuilder3:
+	case opBuilder2, opBuilder3, opBuilderN:
 		if n.chain {
 			sb.WriteString("Chain")
 		} else {
@@ -588,7 +611,20 @@ func (c *c06) eval(n *fx) tri {
 			vs = append(vs, x.v)
 		}
 		return triS(hashSeq(vs))
-	case opBuilder2, opBuilder3:
+	case opLiftN:
+		var vs []int
+		for _, k := range n.kids {
+			x := ev(k)
+			if x.st != 1 {
+				return x
+			}
+			vs = append(vs, x.v)
+		}
+		if n.k == 1 && n.c%3 == 0 {
+			return triF(n.tag)
+		}
+		return triS(fv(n.c, vs...))
+	case opBuilder2, opBuilder3, opBuilderN:
 		var vs []int
 		for _, a := range n.args {
 			x := c.evalArg(a)
@@ -597,10 +633,13 @@ func (c *c06) eval(n *fx) tri {
 			}
 			vs = append(vs, x.v)
 		}
-		if len(vs) == 2 {
+		switch len(vs) {
+		case 2:
 			return triS(f2(n.c, vs[0], vs[1]))
+		case 3:
+			return triS(f3(n.c, vs[0], vs[1], vs[2]))
 		}
-		return triS(f3(n.c, vs[0], vs[1], vs[2]))
+		return triS(fv(n.c, vs...))
 	}
 	panic("eval: bad op")
 }
@@ -987,6 +1026,10 @@ func (c *c06) build0(n *fx) fp.Future[int] {
 			return c.chain3(n)
 		}
 		return c.applicative3(n)
+	case opBuilderN:
+		return c.builderN(n)
+	case opLiftN:
+		return c.liftN(n)
 	}
 	panic("build: bad op")
 }
